@@ -74,7 +74,7 @@ type JobResult struct {
 	Meta       map[string]string   `json:"meta"`
 	Funcs      []*FuncResult       `json:"funcs"`
 	LoadErrors map[string][]string `json:"load_errors"`
-	Encoded    []string            `json:"encoded"` // functions interpreted
+	Encoded    []string            `json:"encoded"`           // functions interpreted
 	Skipped    bool                `json:"skipped,omitempty"` // not run: the check's overall time budget was used up
 	Solver     smt.Stats           `json:"solver"`
 	Solver2    smt.Stats           `json:"solver2"`
